@@ -7,16 +7,17 @@ runs every registered check (default: all) against it with VERIF_REPO / VERIF_OU
 prints which checks (wrongly) raised a VIOLATION.  Results are kept in /verif/benign/<name>/ (patch + meta).
 """
 import json, os, shutil, subprocess, sys, tempfile
+HOME = os.environ.get("VERIF_HOME", "/verif")   # a worktree of /verif may run the drills with its own harness
 from concurrent.futures import ThreadPoolExecutor
 
 out = sys.argv[1].rstrip("/")
 meta = json.load(open(os.path.join(out, "meta.json")))
 name = os.path.basename(out)
-ids = sys.argv[2:] or [c["property_id"] for c in json.load(open("/verif/MANIFEST.json"))["checks"]]
+ids = sys.argv[2:] or [c["property_id"] for c in json.load(open(os.path.join(HOME, "MANIFEST.json")))["checks"]]
 wt = tempfile.mkdtemp(prefix="benign-", dir="/tmp")
 os.rmdir(wt)
 scratch = tempfile.mkdtemp(prefix="benign-out-", dir="/tmp")
-shutil.copy("/verif/lean/.lake/build/bin/drv", os.path.join(scratch, "drv"))
+shutil.copy(os.path.join(HOME, "lean/.lake/build/bin/drv"), os.path.join(scratch, "drv"))
 
 
 def sh(cmd, **kw):
@@ -37,13 +38,13 @@ try:
 
         def one(c):
             e2 = dict(os.environ, VERIF_REPO=wt, VERIF_OUT=scratch, VERIF_DRV=os.path.join(scratch, "drv"))
-            r = sh(f"cd /verif && ./check {c} --no-audit", env=e2)
+            r = sh(f"cd {HOME} && ./check {c} --no-audit", env=e2)
             lines = [l for l in r.stdout.splitlines() if "VIOLATION" in l]
             detail = ""
             for l in lines[:1]:
                 rp = l.split("replay=")[1].split()[0]
                 try:
-                    d = json.load(open(os.path.normpath(os.path.join("/verif", rp))))
+                    d = json.load(open(os.path.normpath(os.path.join(HOME, rp))))
                     detail = json.dumps(d.get("violation") or d.get("no_longer_checks") or d)[:600]
                 except Exception as ex:
                     detail = f"(replay unreadable: {ex})"
@@ -60,7 +61,7 @@ alarms = {c: v for c, v in res["checks"].items() if v["rc"] != 0 or v["lines"]}
 print(json.dumps({"name": name, "kind": meta.get("kind"), "summary": meta.get("summary", "")[:150], "applies": res.get("applies"),
                   "suite": res.get("suite"), "alarms": {c: {"rc": v["rc"], "lines": v["lines"], "detail": v["detail"][:400]} for c, v in alarms.items()}}, indent=1))
 if res.get("applies") and "55 passed" in res.get("suite", ""):
-    dst = os.path.join("/verif/benign", name)
+    dst = os.path.join(HOME, "benign", name)
     os.makedirs(dst, exist_ok=True)
     shutil.copy(os.path.join(out, "patch.diff"), dst)
     meta["what_was_run"] = {"suite_with_patch": res["suite"], "checks_run": ids,
